@@ -100,6 +100,13 @@ func (e *Exec) blockUntil(cond func() bool, what string) {
 	for !cond() {
 		if e.cur == nil {
 			if !e.runOthers() {
+				// every goroutine is blocked: natively the harness hangs (or the runtime reports "all goroutines are
+				// asleep"), so this is reported like a panic and replayed with a time limit
+				if e.dec.pos >= len(e.dec.prefix) {
+					e.stats.Obligations++
+					e.oblLabels["no-dead-lock"]++
+					e.reportIfSat(nil, e.ctx.True, "panic", "dead-lock: "+what+" while no goroutine can make progress")
+				}
 				panic(pathEnd{endBlocked, what + " (no goroutine can make progress: dead-lock)"})
 			}
 			continue
